@@ -439,6 +439,37 @@ pub fn sections() -> Vec<Box<dyn Section>> {
             complete: true,
         }),
         Box::new(Enumerated {
+            name: "names-near-the-inline-capacity".into(),
+            total: Box::new(|_| 2 * crate::chars::names_near_inline_capacity().len() as u64),
+            make: Box::new(|_, i| {
+                let v = crate::chars::names_near_inline_capacity();
+                Some(ProgramCase {
+                    program: crate::buildprog::Program { ty: ["pypi", "nuget"][(i as usize) / v.len()].into(), name: v[(i as usize) % v.len()].clone(), ops: vec![] },
+                    typed: true,
+                })
+            }),
+            oracle: o_program_and_parse,
+            required: vec![],
+            complete: true,
+        }),
+        Box::new(Enumerated {
+            name: "every-scalar-next-to-a-case-changing-letter".into(),
+            total: Box::new(|_| 0x110000 * 4),
+            make: Box::new(|_, i| {
+                let c = char::from_u32((i / 4) as u32)?;
+                let (ty, name) = match i % 4 {
+                    0 => ("nuget", format!("\u{c9}{c}")),
+                    1 => ("nuget", format!("{c}\u{3a3}a")),
+                    2 => ("pypi", format!("{c}\u{c9}")),
+                    _ => ("pypi", format!("\u{c9}-{c}")),
+                };
+                Some(ProgramCase { program: crate::buildprog::Program { ty: ty.into(), name, ops: vec![] }, typed: true })
+            }),
+            oracle: o_program_and_parse,
+            required: vec![],
+            complete: true,
+        }),
+        Box::new(Enumerated {
             name: "parse-token-language".into(),
             total: Box::new(|t: Tier| strata_total(&strata(t.pick(4, 5), t.pick(5, 6)))),
             make: Box::new(|t: Tier, i| strata_make(&strata(t.pick(4, 5), t.pick(5, 6)), i)),
